@@ -603,21 +603,20 @@ func (pr *ProtoArray) OnPrune(ctx context.Context, anchorRoot Root, anchorSlot S
 		return HeadUnknownErr
 	}
 	// Remove the `self.indices` and `self.blockSlots` key/values for all the to-be-deleted nodes.
-	j := 0
 	var pruned []prunedNode
 	for i := pr.indexOffset; i < anchorIndex; i++ {
-		node := &pr.nodes[j]
-		if pr.sink != nil {
-			canonical := node.BestDescendant == headIndex
-			pruned = append(pruned, prunedNode{canonical, node})
-		}
+		node := &pr.nodes[i-pr.indexOffset]
+		canonical := node.BestDescendant == headIndex
+		pruned = append(pruned, prunedNode{canonical, node})
 	}
 	// Send pruned nodes to the node sink (empty if no sink). Continue until it fails.
 	// Only prune what we successfully sent to the sink.
 	prunedUpTo := 0
 	for _, p := range pruned {
-		if err = pr.sink.OnPrunedNode(ctx, p.node.Ref, p.canonical); err != nil {
-			break
+		if pr.sink != nil {
+			if err = pr.sink.OnPrunedNode(ctx, p.node.Ref, p.canonical); err != nil {
+				break
+			}
 		}
 		prunedUpTo++
 	}
